@@ -1,4 +1,6 @@
 mod c05_extra;
+mod c06;
+mod c10;
 mod c18;
 mod c19;
 mod c20;
@@ -13,7 +15,7 @@ use fw::*;
 use std::path::Path;
 
 fn registry() -> Vec<&'static CheckDef> {
-    vec![&checks_play::C01, &checks_play::C02, &checks_play::C03, &checks_play::C05, &enums::C08, &enums::C09, &enums::C14, &enums::C16, &enums::C17, &c18::C18, &c19::C19, &c20::C20]
+    vec![&checks_play::C01, &checks_play::C02, &checks_play::C03, &checks_play::C05, &c06::C06, &c10::C10, &enums::C08, &enums::C09, &enums::C14, &enums::C16, &enums::C17, &c18::C18, &c19::C19, &c20::C20]
 }
 
 fn find(id: &str) -> &'static CheckDef {
@@ -85,6 +87,7 @@ fn selftest() -> Result<(), String> {
             gen::Root::Named { .. } => "named".to_string(),
             gen::Root::Synth(_) => "synth".to_string(),
             gen::Root::Motif { kind, .. } => format!("motif{:02}", kind % gen::MOTIFS),
+            gen::Root::Fen(_) => "fen".to_string(),
         };
         if gen::build_root(&r).is_some() {
             *acc.entry(k).or_insert(0u32) += 1;
